@@ -1,0 +1,188 @@
+// +build verif
+
+// Accessors for the external verification harness (/verif, property C18,
+// second part): a Downloader assembled without chain / database (only the
+// fields the body download path reads, same values as New), the few steps
+// synchronise / syncWithPeer / processHeaders perform around fetchBodies, and
+// read-only views of the loop-visible state.  Compiled only with -tags verif;
+// nothing here changes the behaviour of existing code.
+
+package downloader
+
+import (
+	"fmt"
+	"sync/atomic"
+	"time"
+
+	"github.com/youchainhq/go-youchain/core/types"
+)
+
+var (
+	VerifErrNoPeers          = errNoPeers
+	VerifErrPeersUnavailable = errPeersUnavailable
+	VerifErrTimeout          = errTimeout
+	VerifErrCanceled         = errCanceled
+)
+
+// VerifSetMaxBlockFetch sets MaxBlockFetch (already an exported variable) and
+// returns the previous value.
+func VerifSetMaxBlockFetch(n int) int {
+	old := MaxBlockFetch
+	MaxBlockFetch = n
+	return old
+}
+
+// VerifDL is a Downloader on which only the body download is run.
+type VerifDL struct {
+	d    *Downloader
+	errc chan error
+}
+
+// VerifNewBodyDL builds a Downloader like New does, minus chain, database,
+// event mux and the qosTuner / trieFetcher goroutines.  drop is the peerDropFn
+// (ProtocolManager.removePeer in production).
+func VerifNewBodyDL(drop func(id string)) *VerifDL {
+	d := &Downloader{
+		peers:         newPeerSet(),
+		dropPeer:      drop,
+		quitCh:        make(chan struct{}),
+		rttEstimate:   uint64(rttMaxEstimate),
+		rttConfidence: uint64(1000000),
+		bodyWakeCh:    make(chan bool, 1),
+		receiptWakeCh: make(chan bool, 1),
+		headerCh:      make(chan dataPack, 1),
+		bodyCh:        make(chan dataPack, 1),
+		receiptCh:     make(chan dataPack, 1),
+		headerProcCh:  make(chan []*types.Header, 1),
+		queue:         newQueue(),
+	}
+	return &VerifDL{d: d, errc: make(chan error, 1)}
+}
+
+// BeginSync is what synchronise and syncWithPeer do before the fetchers are
+// spawned: reset queue and peers, open the cancel channel, mark the master
+// peer, full sync mode, prepare the result window at the first block to fetch.
+func (v *VerifDL) BeginSync(master string, first uint64) {
+	d := v.d
+	d.queue.Reset()
+	d.peers.Reset()
+	d.cancelLock.Lock()
+	d.cancelCh = make(chan struct{})
+	d.cancelPeer = master
+	d.cancelLock.Unlock()
+	d.mode = FullSync
+	d.queue.Prepare(first, d.mode)
+}
+
+func (v *VerifDL) RegisterPeer(id string, p Peer) error { return v.d.RegisterPeer(id, p) }
+func (v *VerifDL) UnregisterPeer(id string) error       { return v.d.UnregisterPeer(id) }
+func (v *VerifDL) DeliverBodies(id string, txs [][]*types.Transaction) error {
+	return v.d.DeliverBodies(id, txs)
+}
+
+// Schedule is processHeaders' d.queue.Schedule(chunk, origin).
+func (v *VerifDL) Schedule(hs []*types.Header, from uint64) int {
+	return len(v.d.queue.Schedule(hs, from))
+}
+
+// WakeBodies is processHeaders' signal to the body fetcher: cont=true after a
+// batch was scheduled (non-blocking send), cont=false when all headers are
+// processed (blocking send, abandoned on cancel).
+func (v *VerifDL) WakeBodies(cont bool) bool {
+	if cont {
+		select {
+		case v.d.bodyWakeCh <- true:
+			return true
+		default:
+			return false
+		}
+	}
+	select {
+	case v.d.bodyWakeCh <- false:
+		return true
+	case <-v.d.cancelCh:
+		return false
+	}
+}
+
+// StartFetchBodies runs the real d.fetchBodies() in its own goroutine, as
+// spawnSync does.
+func (v *VerifDL) StartFetchBodies() {
+	go func() {
+		// fetchParts panics on a double allocation ("fetch assignment failed");
+		// hand that to the harness as an error instead of killing the process
+		defer func() {
+			if e := recover(); e != nil {
+				v.errc <- fmt.Errorf("panic: %v", e)
+			}
+		}()
+		v.errc <- v.d.fetchBodies()
+	}()
+}
+
+// FetchReturned reports whether fetchBodies returned, and its error.
+func (v *VerifDL) FetchReturned() (bool, error) {
+	select {
+	case err := <-v.errc:
+		v.errc <- err
+		return true, err
+	default:
+		return false, nil
+	}
+}
+
+// Stop cancels the cycle and closes the queue (spawnSync's epilogue).
+func (v *VerifDL) Stop() {
+	v.d.queue.Close()
+	v.d.cancel()
+}
+
+// Queue gives the C18 queue view (Dump, Results, Processable, SetRequestTime).
+func (v *VerifDL) Queue() *VerifQueue { return &VerifQueue{v.d.queue} }
+
+func (v *VerifDL) RequestTTL() time.Duration { return v.d.requestTTL() }
+
+// VerifLoopPeer is the loop-visible state of one registered peer.
+type VerifLoopPeer struct {
+	ID         string
+	Idle       bool
+	Throughput float64
+	Lacking    int
+}
+
+// VerifLoopState is a cheap snapshot of what fetchParts reads.
+type VerifLoopState struct {
+	Queued      int                 // body tasks in the task queue (pending())
+	Pend        map[string][]uint64 // in flight: peer id -> block numbers
+	Processable int
+	Throttled   bool
+	Peers       []VerifLoopPeer // registered peers, sorted by id
+	InBodyCh    int             // packets not yet taken by the loop
+	InWakeCh    int
+}
+
+func (v *VerifDL) LoopState() VerifLoopState {
+	d := v.d
+	s := VerifLoopState{Pend: map[string][]uint64{}, InBodyCh: len(d.bodyCh), InWakeCh: len(d.bodyWakeCh)}
+	q := d.queue
+	q.lock.Lock()
+	s.Queued = q.blockTaskQueue.Size()
+	for id, r := range q.blockPendPool {
+		s.Pend[id] = reqNumbers(r)
+	}
+	s.Processable = q.countProcessableItems()
+	s.Throttled = q.resultSlots(q.blockPendPool, q.blockDonePool) <= 0
+	q.lock.Unlock()
+	for _, p := range d.peers.AllPeers() {
+		p.lock.RLock()
+		lp := VerifLoopPeer{ID: p.id, Idle: atomic.LoadInt32(&p.blockIdle) == 0, Throughput: p.blockThroughput, Lacking: len(p.lacking)}
+		p.lock.RUnlock()
+		s.Peers = append(s.Peers, lp)
+	}
+	for i := 1; i < len(s.Peers); i++ {
+		for j := i; j > 0 && s.Peers[j].ID < s.Peers[j-1].ID; j-- {
+			s.Peers[j], s.Peers[j-1] = s.Peers[j-1], s.Peers[j]
+		}
+	}
+	return s
+}
